@@ -703,8 +703,12 @@ def make_cases(tier, rng, R):
                     if rng.random() < (0.15 if q else 1.0):
                         v = rnd_width_value(rng, 32)
                         customs[name] = num_form(rng, v)
-                cases.append({"scenario": "values", "kind": kind, "family": row[1], "rev": row[2], "sub": row[3], "layout": li,
-                              "settings": customs})
+                c = {"scenario": "values", "kind": kind, "family": row[1], "rev": row[2], "sub": row[3], "layout": li,
+                     "settings": customs}
+                if q == n - 1:
+                    c["history"] = 1
+                    c["settings2"] = {name: num_form(rng, rnd_width_value(rng, 32)) for (name, _) in d["presets"] if rng.random() < 0.2}
+                cases.append(c)
             continue
         lay, _ = R["model_layouts"][li]
         slow = kind in ("xmcd", "fcb")      # their get_config already goes through the YAML text, their loaders validate
@@ -720,6 +724,19 @@ def make_cases(tier, rng, R):
                 text = int(q == 1 and not slow and (kind != "fuses" or li % 3 == 1))
             c = {"scenario": "values", "kind": kind, "family": row[1], "rev": row[2], "sub": row[3], "layout": li,
                  "settings": settings, "touched": touched, "validate": validate, "text": text}
+            if q == nvals - 1 or (thorough and q % 5 == 3):
+                # the same object exported repeatedly, changed through the public API, exported again
+                c["history"] = 1
+                s2, _ = gen_settings(rng, lay, d, 0.25)
+                if kind == "xmcd":
+                    s2.pop(lay["regs"][0]["name"], None)           # the header stays as loaded
+                    _, opt = R["model_layouts"][li]
+                    if opt:                                           # the layout-affecting member: optionSize 0 <-> 1
+                        cur = settings.get("configOption0")
+                        was0 = isinstance(cur, dict) and py_value_to_int(cur.get("optionSize", 1)) == 0
+                        s2["configOption0"] = {"optionSize": 1 if was0 else 0}
+                c["settings2"] = s2
+                c["keys"] = int(kind == "cmpa" and d.get("rotkh") is not None and (thorough or li % 2 == 0))
             if kind in PFR_KINDS:
                 c["seal"] = 1
                 if d.get("rotkh") is not None:
@@ -1097,6 +1114,61 @@ def sweep(rep, R):
     return counts
 
 
+def history_oracle(case, res, fail):
+    """one object, several exports: byte-identical repeats; an export after a change equals the export of a twin that was
+    changed without having exported before"""
+    h = res.get("history")
+    if not h:
+        return 0
+    kind = case["kind"]
+    ops0 = [f"load_from_config({kind} {case['family']}/{case['rev']}/{case['sub']}, settings)"]
+    n = 0
+
+    def same(a_, b_, what, ops, sig="second-export-differs"):
+        nonlocal n
+        if a_ not in h or b_ not in h:
+            return
+        n += 1
+        x, y = h[a_], h[b_]
+        if x != y:
+            det = diff_bytes(bytes.fromhex(x["ok"]), y) if "ok" in x else f"{x} / {y}"
+            fail(f"history:{sig}:{kind}:{what}", f"{what}: {det}", {"operations": ops0 + ops, "first": x, "second": y})
+
+    if "load" in h:
+        return 0
+    same("e1", "e2", "export", ["export()", "export()"])
+    same("s1", "s2", "export-sealed", ["export()", "export()", "export(add_seal=True)", "export(add_seal=True)"])
+    same("e1", "e3", "export-after-sealed-export", ["export()", "export(add_seal=True) x2", "export()"])
+    same("r1", "r2", "export-rotkh", ["export(rotkh=h)", "export(rotkh=h)"])
+    same("r_fresh", "r1", "export-rotkh", ["fresh object: export(rotkh=h)"])
+    same("k1", "k2", "export-keys", ["export(keys=[k0, k1])", "export(keys=[k0, k1])"])
+    same("k_fresh", "k1", "export-keys", ["fresh object: export(keys=[k0, k1])"])
+    same("p1", "p2", "parse-export", ["parse(export()).export()", "the same parsed object: export()"])
+    if "change" in h:
+        n += 1
+        fail(f"history:change-rejected:{kind}", f"in-range settings were rejected by a live object: {h['change']}",
+             {"operations": ops0 + ["export()", "apply settings2"], "settings2": case.get("settings2")})
+        return n
+    chg = ["export()", "export()", "apply settings2 through the public API", "export()"]
+    same("m1", "m2", "export-after-change", chg + ["export()"])
+    same("twin", "m1", "export", ["twin: load_from_config(settings); apply settings2; export()"] + chg, sig="stale-after-change")
+    if kind == "xmcd" and "ok" in h.get("m1", {}):
+        # the layout-affecting member (optionSize) was changed: the block must still describe itself
+        n += 1
+        m1 = bytes.fromhex(h["m1"]["ok"])
+        size_field = int.from_bytes(m1[0:4], "little") & 0xFFF
+        rl = h.get("m_reload", {})
+        if size_field != len(m1) or h.get("m_verify_errors", {}).get("ok") != 0:
+            e1 = bytes.fromhex(h["e1"]["ok"]) if "ok" in h.get("e1", {}) else b""
+            tag = "header-keeps-the-size-of-the-earlier-layout" if (size_field == len(e1) != len(m1) and m1[4:] == bytes.fromhex(h["twin"]["ok"])[4:len(m1)]
+                                                                    and len(bytes.fromhex(h["twin"]["ok"])) == len(m1)) else "other-outcome"
+            fail(f"history:stale-after-change:{kind}:header-size:{tag}", f"after optionSize was changed on a loaded object the exported block has "
+                 f"{len(m1)} bytes but its header says {size_field} (verify errors: {h.get('m_verify_errors')}); a fresh object loaded with the "
+                 f"resulting configuration exports {rl.get('ok', rl)}",
+                 {"operations": ops0 + chg, "settings2": case.get("settings2"), "export": h["m1"]["ok"]})
+    return n
+
+
 def apply_oracles(rep, case, res, R):
     """spec oracles on the implementation's own outputs; returns the number of checks made"""
     d = R["layouts"][case["layout"]]
@@ -1168,6 +1240,7 @@ def apply_oracles(rep, case, res, R):
             fail(f"roundtrip:{kind}:parse-export", "from_binary(export).export() differs from export")
         if res.get("export3", {}).get("ok") != e1["ok"]:
             fail(f"roundtrip:{kind}:config", "the customisations read back from the binary export differently")
+        nchecks += history_oracle(case, res, fail)
         return nchecks
     e1 = res.get("export", {})
     nchecks += 1
@@ -1323,6 +1396,7 @@ def apply_oracles(rep, case, res, R):
         bad = check_fuse_script(lay, case, res)
         if bad:
             fail(f"fuse-script:{kind}", bad)
+    nchecks += history_oracle(case, res, fail)
     # the parser on an arbitrary binary
     if case.get("parse_random") is not None:
         rb = bytes.fromhex(case["parse_random"])
